@@ -1,0 +1,90 @@
+// Copyright 2017 Pilosa Corp.
+//
+// Licensed under the Apache License, Version 2.0 (the "License");
+// you may not use this file except in compliance with the License.
+// You may obtain a copy of the License at
+//
+//     http://www.apache.org/licenses/LICENSE-2.0
+//
+// Unless required by applicable law or agreed to in writing, software
+// distributed under the License is distributed on an "AS IS" BASIS,
+// WITHOUT WARRANTIES OR CONDITIONS OF ANY KIND, either express or implied.
+// See the License for the specific language governing permissions and
+// limitations under the License.
+
+//go:build verif
+// +build verif
+
+package pilosa
+
+import (
+	"context"
+	"fmt"
+	"sort"
+	"strings"
+)
+
+// Export shims for the verification harness (/verif, property C24). Add-only, tag-guarded.
+
+// VerifC24IndexDump renders the translate index of one namespace: sequence, element count,
+// capacity, the occupied robin-hood slots (pos:id:offset) and the reverse map (id:offset).
+// It returns "nil" when the namespace has no index.
+func VerifC24IndexDump(s *TranslateFile, index, field string, row bool) string {
+	s.mu.RLock()
+	defer s.mu.RUnlock()
+	var idx *index_
+	if row {
+		idx = s.rows[fieldKey{index, field}]
+	} else {
+		idx = s.cols[index]
+	}
+	if idx == nil {
+		return "nil"
+	}
+	var cells []string
+	for i := range idx.elems {
+		if e := &idx.elems[i]; e.hash != 0 {
+			cells = append(cells, fmt.Sprintf("%d:%d:%d", i, e.id, e.offset))
+		}
+	}
+	ids := make([]uint64, 0, len(idx.offsetsByID))
+	for id := range idx.offsetsByID {
+		ids = append(ids, id)
+	}
+	sort.Slice(ids, func(i, j int) bool { return ids[i] < ids[j] })
+	rev := make([]string, len(ids))
+	for i, id := range ids {
+		rev[i] = fmt.Sprintf("%d:%d", id, idx.offsetsByID[id])
+	}
+	return fmt.Sprintf("seq=%d n=%d cap=%d tbl=%s rev=%s", idx.seq, idx.n, len(idx.elems),
+		strings.Join(cells, ","), strings.Join(rev, ","))
+}
+
+// index_ names the unexported index type (the identifier `index` is shadowed by parameters above).
+type index_ = index
+
+// VerifC24Replicate runs one replicate() session against s.PrimaryTranslateStore and returns
+// when the primary's reader reports EOF or an error.
+func VerifC24Replicate(ctx context.Context, s *TranslateFile) error { return s.replicate(ctx) }
+
+// VerifC24Size returns the number of bytes in use in the data file.
+func VerifC24Size(s *TranslateFile) int64 { return s.size() }
+
+// VerifC24Lookup is a read-only idByKey on one namespace (no id is created).
+func VerifC24Lookup(s *TranslateFile, index, field string, row bool, key []byte) (uint64, bool) {
+	s.mu.RLock()
+	defer s.mu.RUnlock()
+	var idx *index_
+	if row {
+		idx = s.rows[fieldKey{index, field}]
+	} else {
+		idx = s.cols[index]
+	}
+	if idx == nil {
+		return 0, false
+	}
+	return idx.idByKey(key)
+}
+
+// VerifC24HashKey exposes hashKey.
+func VerifC24HashKey(key []byte) uint64 { return hashKey(key) }
